@@ -69,21 +69,74 @@ func ruleStableOrder(p *Prog, l *Ledger, tier string) {
 		l.Fail(rule, "Subtitles.Order", key, pos, "Order sorts with "+name+", which is not a stable sort: cues with equal starts may change their relative order")
 		return
 	}
-	if name != "sort.SliceStable" {
+	if name == "slices.SortStableFunc" {
 		l.Undecide(rule, "Subtitles.Order", key, pos, "stable sort through "+name+": comparator shape not analysed")
 		return
 	}
 	// sorted value is the receiver's Items
-	if _, f, _ := loadedField(stripIface(c.Call.Args[0])); f != "Items" {
+	sorted := stripIface(c.Call.Args[0])
+	for {
+		if ct, ok := sorted.(*ssa.ChangeType); ok {
+			sorted = ct.X
+			continue
+		}
+		break
+	}
+	if _, f, _ := loadedField(sorted); f != "Items" {
 		l.Fail(rule, "Subtitles.Order", key, pos, "the sorted slice is not the receiver's Items field")
 		return
 	}
-	mc, ok := c.Call.Args[1].(*ssa.MakeClosure)
-	if !ok {
-		l.Undecide(rule, "Subtitles.Order", key, pos, "comparator is not a function literal")
-		return
+	var less *ssa.Function
+	off := 0 // index of the first index parameter of less
+	isItems := func(v ssa.Value) bool {
+		_, sf, _ := loadedField(v)
+		return sf == "Items"
 	}
-	less := mc.Fn.(*ssa.Function)
+	if name == "sort.Stable" {
+		// sort.Interface on a named slice type: Len is len, Swap swaps, Less is analysed below
+		mi, ok := c.Call.Args[0].(*ssa.MakeInterface)
+		if !ok {
+			l.Undecide(rule, "Subtitles.Order", key, pos, "sort.Stable on a value whose dynamic type is not visible")
+			return
+		}
+		ms := p.SSA.MethodSets.MethodSet(mi.X.Type())
+		get := func(n string) *ssa.Function {
+			for i := 0; i < ms.Len(); i++ {
+				if ms.At(i).Obj().Name() == n {
+					return p.SSA.MethodValue(ms.At(i))
+				}
+			}
+			return nil
+		}
+		lenF, swapF := get("Len"), get("Swap")
+		less = get("Less")
+		if lenF == nil || swapF == nil || less == nil || len(less.Params) != 3 {
+			l.Undecide(rule, "Subtitles.Order", key, pos, "sort.Interface methods of "+mi.X.Type().String()+" not found")
+			return
+		}
+		if _, isSlice := mi.X.Type().Underlying().(*types.Slice); !isSlice {
+			l.Undecide(rule, "Subtitles.Order", key, pos, "sort.Stable on "+mi.X.Type().String()+", which is not a slice of the items")
+			return
+		}
+		if !isLenOfRecv(lenF) {
+			l.Fail(rule, "Subtitles.Order", key, p.Pos(lenF.Pos()), "Len of the sorted type is not the length of the list: some cues are left out of the ordering")
+			return
+		}
+		if !isSwapOfRecv(swapF) {
+			l.Fail(rule, "Subtitles.Order", key, p.Pos(swapF.Pos()), "Swap of the sorted type does not exchange elements i and j")
+			return
+		}
+		off = 1
+		recvP := less.Params[0]
+		isItems = func(v ssa.Value) bool { return v == ssa.Value(recvP) }
+	} else {
+		mc, ok := c.Call.Args[1].(*ssa.MakeClosure)
+		if !ok {
+			l.Undecide(rule, "Subtitles.Order", key, pos, "comparator is not a function literal")
+			return
+		}
+		less = mc.Fn.(*ssa.Function)
+	}
 	var rets []*ssa.Return
 	for _, b := range less.Blocks {
 		if r, ok := b.Instrs[len(b.Instrs)-1].(*ssa.Return); ok {
@@ -113,13 +166,12 @@ func ruleStableOrder(p *Prog, l *Ledger, tier string) {
 		if !ok {
 			return f, -1, false
 		}
-		_, sf, _ := loadedField(ia.X)
 		for k, par := range less.Params {
-			if ia.Index == ssa.Value(par) {
-				return f, k, sf == "Items"
+			if k >= off && ia.Index == ssa.Value(par) {
+				return f, k - off, isItems(ia.X)
 			}
 		}
-		return f, -1, sf == "Items"
+		return f, -1, isItems(ia.X)
 	}
 	fx, px, okx := elemOf(bo.X)
 	fy, py, oky := elemOf(bo.Y)
@@ -130,7 +182,7 @@ func ruleStableOrder(p *Prog, l *Ledger, tier string) {
 	case fx != "StartAt" || fy != "StartAt":
 		l.Fail(rule, "Subtitles.Order", key, pos, fmt.Sprintf("comparator compares %s with %s instead of StartAt with StartAt", fx, fy))
 	case (bo.Op == token.LSS && px == 0 && py == 1) || (bo.Op == token.GTR && px == 1 && py == 0):
-		l.Prove(rule, "Subtitles.Order", key, pos, "sort.SliceStable(s.Items, Items[i].StartAt < Items[j].StartAt): stable, strict, on StartAt of (i, j)")
+		l.Prove(rule, "Subtitles.Order", key, pos, name+" over s.Items with less = Items[i].StartAt < Items[j].StartAt: stable, strict, on StartAt of (i, j)")
 	case bo.Op == token.LEQ || bo.Op == token.GEQ:
 		l.Fail(rule, "Subtitles.Order", key, pos, "comparator uses a non-strict comparison: with sort.SliceStable equal starts are reordered (less must be a strict order)")
 	default:
@@ -206,7 +258,7 @@ func ruleMergeShape(p *Prog, l *Ledger, tier string) {
 	}
 	// (3) G7: definitions are added only when absent (receiver wins)
 	nMU := 0
-	for _, b := range fn.Blocks {
+	for _, b := range p.helperBlocks(fn) {
 		for _, ins := range b.Instrs {
 			mu, ok := ins.(*ssa.MapUpdate)
 			if !ok {
@@ -227,6 +279,10 @@ func ruleMergeShape(p *Prog, l *Ledger, tier string) {
 			}
 			nMU++
 			key := l.Key(rule, "Subtitles.Merge", "add-if-absent", f)
+			if p.rootValue(fn, base) != ssa.Value(recv) {
+				l.Fail(rule, "Subtitles.Merge", key, p.Pos(mu.Pos()), "definition stored into the "+f+" of something that is not Merge's receiver")
+				continue
+			}
 			// dominated by the false edge of a comma-ok lookup of the same map with the same key
 			ok2 := false
 			for x := b; x != nil; x = x.Idom() {
@@ -427,3 +483,70 @@ func sortedStrs(m map[string]bool) []string {
 }
 
 var _ = strings.Join
+
+// isLenOfRecv: f is `func (x T) Len() int { return len(x) }`.
+func isLenOfRecv(f *ssa.Function) bool {
+	if len(f.Blocks) != 1 || len(f.Params) != 1 {
+		return false
+	}
+	r, ok := f.Blocks[0].Instrs[len(f.Blocks[0].Instrs)-1].(*ssa.Return)
+	if !ok || len(r.Results) != 1 {
+		return false
+	}
+	c, ok := r.Results[0].(*ssa.Call)
+	if !ok {
+		return false
+	}
+	bi, ok := c.Call.Value.(*ssa.Builtin)
+	return ok && bi.Name() == "len" && c.Call.Args[0] == ssa.Value(f.Params[0])
+}
+
+// isSwapOfRecv: f is `func (x T) Swap(i, j int) { x[i], x[j] = x[j], x[i] }`: exactly two stores,
+// x[i] receives the old x[j] and x[j] the old x[i], both loaded before either store.
+func isSwapOfRecv(f *ssa.Function) bool {
+	if len(f.Blocks) != 1 || len(f.Params) != 3 {
+		return false
+	}
+	recv, pi, pj := ssa.Value(f.Params[0]), ssa.Value(f.Params[1]), ssa.Value(f.Params[2])
+	which := func(addr ssa.Value) int {
+		ia, ok := addr.(*ssa.IndexAddr)
+		if !ok || ia.X != recv {
+			return -1
+		}
+		switch ia.Index {
+		case pi:
+			return 0
+		case pj:
+			return 1
+		}
+		return -1
+	}
+	var stores []*ssa.Store
+	firstStore := -1
+	idx := map[ssa.Instruction]int{}
+	for k, ins := range f.Blocks[0].Instrs {
+		idx[ins] = k
+		if st, ok := ins.(*ssa.Store); ok {
+			stores = append(stores, st)
+			if firstStore < 0 {
+				firstStore = k
+			}
+		}
+	}
+	if len(stores) != 2 {
+		return false
+	}
+	seen := [2]bool{}
+	for _, st := range stores {
+		dst := which(st.Addr)
+		ld, ok := st.Val.(*ssa.UnOp)
+		if dst < 0 || !ok || ld.Op != token.MUL || idx[ld] > firstStore {
+			return false
+		}
+		if src := which(ld.X); src < 0 || src == dst {
+			return false
+		}
+		seen[dst] = true
+	}
+	return seen[0] && seen[1]
+}
